@@ -41,6 +41,7 @@ const (
 	ovInt
 	ovTerm
 	ovList
+	ovFunc
 )
 
 type oval struct {
@@ -51,6 +52,10 @@ type oval struct {
 	side  int    // 1: element i, 2: element j
 	isStr bool   // the term is a string (raw comparison of strings)
 	elems []oval
+	// function values: a literal with the frame it captured, or a declared function
+	lit   *ast.FuncLit
+	fn    *core.FuncInfo
+	cap   *ordFrame
 }
 
 type ordFrame struct {
@@ -201,10 +206,39 @@ func (s *strictEval) eval(fr *ordFrame, x ast.Expr) oval {
 		}
 	}
 	switch v := x.(type) {
+	case *ast.FuncLit:
+		return oval{kind: ovFunc, lit: v, cap: fr}
 	case *ast.Ident:
 		if o := core.ObjOf(fr.info, v); o != nil {
 			if val, has := fr.env[o]; has {
 				return val
+			}
+			if f, isFn := o.(*types.Func); isFn {
+				if g := s.e.c.P.Funcs[f.Origin()]; g != nil {
+					return oval{kind: ovFunc, fn: g}
+				}
+			}
+			// a package-level variable of the same package initialised with a function value
+			if vo, isVar := o.(*types.Var); isVar && vo.Parent() == vo.Pkg().Scope() && vo.Pkg() == fr.fi.Pkg.Types {
+				if _, isSig := vo.Type().Underlying().(*types.Signature); isSig {
+					for _, file := range fr.fi.Pkg.Syntax {
+						for _, d := range file.Decls {
+							gd, ok := d.(*ast.GenDecl)
+							if !ok || gd.Tok != token.VAR {
+								continue
+							}
+							for _, sp := range gd.Specs {
+								vs := sp.(*ast.ValueSpec)
+								for i, nm := range vs.Names {
+									if fr.info.Defs[nm] == o && i < len(vs.Values) {
+										pf := &ordFrame{fi: fr.fi, info: fr.info, env: map[types.Object]oval{}}
+										return s.eval(pf, vs.Values[i])
+									}
+								}
+							}
+						}
+					}
+				}
 			}
 		}
 	case *ast.UnaryExpr:
@@ -302,8 +336,63 @@ func (s *strictEval) call(fr *ordFrame, call *ast.CallExpr) oval {
 		}
 		return oval{kind: ovInt, n: int64(c)}
 	}
-	g := P.Funcs[P.StaticCallee(fr.fi, call)]
-	if g != nil && g.Decl != nil && g.Decl.Body != nil && s.depth < 4 {
+	var g *core.FuncInfo
+	if sc := P.StaticCallee(fr.fi, call); sc != nil {
+		g = P.Funcs[sc.Origin()]
+	}
+	// a call through a function value: a literal (run in the frame it captured) or a declared function
+	if g == nil && callee == nil && s.depth < 6 {
+		saved := s.unk
+		fv := s.eval(fr, call.Fun)
+		if fv.kind == ovFunc && fv.fn != nil {
+			g = fv.fn
+			s.unk = saved
+		} else if fv.kind == ovFunc && fv.lit != nil {
+			s.unk = saved
+			nf := &ordFrame{fi: fv.cap.fi, info: fv.cap.info, env: map[types.Object]oval{}}
+			for k, v := range fv.cap.env {
+				nf.env[k] = v
+			}
+			var params []types.Object
+			if fv.lit.Type.Params != nil {
+				for _, f := range fv.lit.Type.Params.List {
+					for _, nm := range f.Names {
+						params = append(params, nf.info.Defs[nm])
+					}
+				}
+			}
+			for i, po := range params {
+				if i < len(call.Args) {
+					nf.env[po] = s.eval(fr, call.Args[i])
+				}
+			}
+			if s.unk != "" {
+				return oval{}
+			}
+			s.depth++
+			v, returned, ok := s.run(nf, fv.lit.Body.List)
+			s.depth--
+			if ok && returned {
+				return v
+			}
+			if ok && s.discover && fv.lit.Type.Results != nil && len(fv.lit.Type.Results.List) == 1 {
+				switch rt := nf.info.TypeOf(fv.lit.Type.Results.List[0].Type).Underlying().(type) {
+				case *types.Basic:
+					if rt.Info()&types.IsBoolean != 0 {
+						return oval{kind: ovBool}
+					}
+					if rt.Info()&types.IsInteger != 0 {
+						return oval{kind: ovInt}
+					}
+				}
+			}
+			if ok {
+				return s.fail("a path through a function literal does not return")
+			}
+			return oval{}
+		}
+	}
+	if g != nil && g.Decl != nil && g.Decl.Body != nil && s.depth < 6 {
 		sig := g.Obj.Type().(*types.Signature)
 		if sig.Results().Len() == 1 {
 			nf := &ordFrame{fi: g, info: s.e.c.info(g), env: map[types.Object]oval{}}
